@@ -945,7 +945,7 @@ func TestC38(t *testing.T) {
 			"sign bytes canonical (sorted keys, compact), invariant under map insertion order and JSON member order, sensitive to a single-field change. "+
 			"non-trivial = the value carries an interface-typed field (Any message, public key, proof leaf) or a non-empty map, or (SortJSON) two different renderings of one JSON value, or (corrupt bytes) at least one mutation still decoded",
 		map[string]float64{"codec:amino": 0.2, "codec:proto": 0.4, "codec:json": 0.8, "interface-field": 0.4, "nonempty-map": 0.03, "multisig-pubkey": 0.08,
-			"nil-pubkey": 0.004, "nil-sig-pubkey": 0.05, "boundary-height": 0.15, "json-members-permuted": 0.5, "legacy-state-read-at-switch": 0.05, "max-amount": 0.01, "sortjson-permuted": 0.02},
+			"nil-pubkey": 0.003, "nil-sig-pubkey": 0.05, "boundary-height": 0.15, "json-members-permuted": 0.5, "legacy-state-read-at-switch": 0.05, "max-amount": 0.01, "sortjson-permuted": 0.008},
 		func(rt *rapid.T, c *harness.Case) {
 			gen.ResetCodecGlobals()
 			defer gen.ResetCodecGlobals()
